@@ -3,12 +3,13 @@ CONSTANTS
   Programs <- FamilyCycNeg
   QuerySeqs <- QS3
   Permute = TRUE
-  CheckOnTableHit = FALSE
-  RepairFalseResult = FALSE
+  CheckOnTableHit = TRUE
+  RepairFalseResult = TRUE
 VIEW view
 INVARIANT NoDanglingMessages
 INVARIANT NoError
 INVARIANT NegCycleOnlyWhenCyclic
+INVARIANT AnsweredOnlyWhenDefined
 INVARIANT StackEmpty
 INVARIANT TableSound
 INVARIANT ResultCorrect
